@@ -45,6 +45,10 @@ def gen_store_frame(rng, n, subtypes=None, kinds=None):
         c["values"] = gen.gen_values(rng, c["kind"], n, 0.15, 0.1, st)
         c["backing"] = rng.choice(("plain", "plain", "sliced", "concat"))
     spec["index"] = gen_index(rng, n, rng.choice(INDEX_KINDS))
+    if spec["index"]["kind"] != "hilbert" and rng.random() < 0.15:
+        # an ORDINARY column that happens to be called like the index of packed frames
+        spec["extra"]["hilbert_distance"] = [rng.randint(0, 999) for _ in range(n)]
+        spec["order"].insert(rng.randrange(len(spec["order"]) + 1), "hilbert_distance")
     return spec
 
 
